@@ -122,6 +122,10 @@ class ListProxy(list, ContainerValueMixin):
         )
 
     def _get_item_position(self, item: Any) -> str:
+        # identity first: equal-valued ConfigType items would otherwise all report the first index
+        for pos, current in enumerate(self):
+            if current is item:
+                return str(pos)
         try:
             return str(self.index(item))
         except:  # noqa: E722
